@@ -12,8 +12,7 @@ def main(tier, seed):
         assumptions=["'syntactically invalid' = the composition of the per-part validators (tld off) rejects",
                      "domain not FQDN / TLD errors are not syntax errors (flags may stay set there)"])
     c = rep.counters
-    if not c["extra.records"]:
-        raise core.Inconclusive("EAV_EXTRA build produced no records")
+    rep.require(not (not c["extra.records"]), "EAV_EXTRA build produced no records")
     return rep.finish(c["records"], rep.distinct_count,
                       "C01 address corpus; every result record of eav_is_email and is_<rfc>_email in 4 modes x tld off/on, in the "
                       "default and the EAV_EXTRA build; distinct = distinct addresses per build",
